@@ -185,7 +185,16 @@ func TestC13(t *testing.T) {
 		g.keys = nil
 		seen := map[string]bool{}
 		n := rapid.IntRange(3, 7).Draw(rt, "poolSize")
+		// number keys that differ only beyond float64 precision (no expression
+		// is evaluated on these tables: F-FLOAT is about the interpreter)
+		bigNums := s.Attrs[s.Hash] == "N" || s.Range != "" && s.Attrs[s.Range] == "N"
+		bigNums = bigNums && rapid.Bool().Draw(rt, "bigNumberKeys")
+		bigPool := []string{"9007199254740993", "9007199254740992", "9007199254740994", "12345678901234567890123456789012345678", "12345678901234567890123456789012345679",
+			"0.1234567890123456789", "0.1234567890123456788", "-9007199254740993", "100000000000000000000000000000000000001", "100000000000000000000000000000000000002"}
 		drawPart := func(ty, label string) model.AV {
+			if ty == "N" && bigNums {
+				return model.Num(rapid.SampledFrom(bigPool).Draw(rt, label))
+			}
 			switch ty {
 			case "S":
 				return model.Str(rapid.SampledFrom(collisionPool).Draw(rt, label))
@@ -232,6 +241,9 @@ func TestC13(t *testing.T) {
 			if keyUpdate {
 				st.Class("update-targets-key-attribute")
 			}
+			if bigNums {
+				st.Class("number-keys-beyond-float64-precision")
+			}
 			st.Class("hashtype-" + s.Attrs[s.Hash])
 			if s.Range != "" {
 				st.Class("rangetype-" + s.Attrs[s.Range])
@@ -265,13 +277,20 @@ func TestC13(t *testing.T) {
 				fail(f)
 			},
 			"update": func(rt *rapid.T) {
+				if bigNums {
+					rt.Skip("no expressions on tables with numbers beyond float64 precision")
+				}
 				_, _, f := w.do(normOp(g.updateOp(rt, w.m, 0)))
 				fail(f)
 			},
 			"malformedKey": func(rt *rapid.T) {
 				k := badKey(rt)
 				var op model.Op
-				switch rapid.IntRange(0, 3).Draw(rt, "malformedOp") {
+				maxKind := 3
+				if bigNums {
+					maxKind = 2
+				}
+				switch rapid.IntRange(0, maxKind).Draw(rt, "malformedOp") {
 				case 0:
 					it := g.item(rt)
 					for _, a := range s.KeyAttrs() {
@@ -295,6 +314,9 @@ func TestC13(t *testing.T) {
 				}
 			},
 			"keyAttrUpdate": func(rt *rapid.T) {
+				if bigNums {
+					rt.Skip("no expressions on tables with numbers beyond float64 precision")
+				}
 				a := rapid.SampledFrom(s.KeyAttrs()).Draw(rt, "keyAttr")
 				var upd string
 				vals := map[string]model.AV{}
@@ -348,7 +370,7 @@ func (g *tgen) batchOp(rt *rapid.T, max int) model.Op {
 	return model.Op{Kind: "BatchWrite", Batch: []model.TableBatch{tb}}
 }
 
-const ruleC15 = "rapid state machine: SetFailure(none | internal_server | deprecated, through EmulateFailure and through ActiveForceFailure / DeactiveForceFailure) interleaved with every data operation kind (Put, Update, Delete, Get, Query, Scan, BatchWrite with 1-8 requests, BatchGet, TransactWrite) on a table with 0-2 indexes, the same abstract history on both SDK clients against the reference model: while a condition is active every data call returns exactly the configured error class and the complete internal snapshot is unchanged; BatchWrite under internal_server reports every request as unprocessed (none applied, none dropped) identically in both clients; after deactivation the full observable state equals the model that skipped the failed calls and later operations agree with it. Non-trivial = history with >= 2 toggles and a write attempted under failure followed by a read after recovery; distinct = hash of the operation list."
+const ruleC15 = "rapid state machine: SetFailure(none | internal_server | deprecated, through EmulateFailure and through ActiveForceFailure / DeactiveForceFailure) interleaved with every data operation kind (Put, Update, Delete, Get, Query, Scan, BatchWrite with 1-16 requests over one to three tables, BatchGet, TransactWrite) on tables with 0-2 indexes, the same abstract history on both SDK clients against the reference model: while a condition is active every data call returns exactly the configured error class and the complete internal snapshot is unchanged; BatchWrite under internal_server reports every request as unprocessed (none applied, none dropped) identically in both clients; after deactivation the full observable state equals the model that skipped the failed calls and later operations agree with it. Non-trivial = history with >= 2 toggles and a write attempted under failure followed by a read after recovery; distinct = hash of the operation list."
 
 // TestC15 decides property C15.
 func TestC15(t *testing.T) {
@@ -371,6 +393,15 @@ func TestC15(t *testing.T) {
 			st.Step(w.steps)
 		}()
 		_, _, f := w.do(model.Op{Kind: "CreateTable", Schema: &s})
+		fail(f)
+		s2 := drawSchema(rt, "tbl2", schemaCfg{KeyTypes: []string{"S"}, MaxIndexes: 1})
+		g2 := newTgen(rt, s2, o, 4)
+		g2.maxAttrs = 2
+		s3 := *sTable("tbl3", false)
+		g3 := newTgen(rt, s3, o, 4)
+		_, _, f = w.do(model.Op{Kind: "CreateTable", Schema: &s2})
+		fail(f)
+		_, _, f = w.do(model.Op{Kind: "CreateTable", Schema: &s3})
 		fail(f)
 		data := func(op model.Op, write bool) {
 			res, status, f := w.do(op)
@@ -413,7 +444,18 @@ func TestC15(t *testing.T) {
 			"get":    func(rt *rapid.T) { data(model.Op{Kind: "Get", Table: s.Table, Key: g.key(rt)}, false) },
 			"read":   func(rt *rapid.T) { data(g.readOp(rt, w.m, 20), false) },
 			"batchWrite": func(rt *rapid.T) {
-				data(g.batchOp(rt, 8), true)
+				op := g.batchOp(rt, 8)
+				// most batches address several tables
+				if rapid.IntRange(0, 3).Draw(rt, "multiTable") > 0 {
+					op.Batch = append(op.Batch, g2.batchOp(rt, 4).Batch...)
+					if rapid.Bool().Draw(rt, "threeTables") {
+						op.Batch = append(op.Batch, g3.batchOp(rt, 4).Batch...)
+					}
+				}
+				if len(op.Batch) > 1 {
+					st.Class("batch-over-several-tables")
+				}
+				data(op, true)
 			},
 			"batchGet": func(rt *rapid.T) {
 				n := rapid.IntRange(1, 4).Draw(rt, "bgN")
